@@ -104,12 +104,18 @@ def onEvent (ps : PState) (self : Int) (kind : String) (a b c d : Int) : R := do
       let v ← needSlot ps a
       -- the quit path leaves the loop by itself (`hasQuitAck`); otherwise the thread was terminated by ~WorkerThread
       if s.pc v == .done then .ok ps else
-      let quiet := match s.parent v with
-        | some p => p == ps.root || s.pc p == .wait || s.pc p == .done
-        | none => true
-      if ps.strict && !quiet then .error s!"exit-not-quiet: helper {a} is destroyed while its parent's thread is running (parent pc {match s.parent v with | some p => showPc (s.pc p) | none => "-"})" else
-      let ps1 ← doStep ps (.exit v) s!"exit {a} (pc {showPc (s.pc v)}, terminate {b})"
-      .ok { ps1 with slots := ps1.slots.filter (fun p => p.1 != a), retired := a :: ps1.retired }
+      doStep ps (.tend v) s!"thread end {a} (pc {showPc (s.pc v)}, terminate {b}, engine pc {showPc (s.pc ps.root)})"
+  | "COMM_GONE" =>
+      match slotOf ps a with
+      | none => .ok ps
+      | some v =>
+        if v == ps.root || s.pc v == .done then .ok ps else
+        let quiet := match s.parent v with
+          | some p => p == ps.root || s.pc p == .wait || s.pc p == .done || s.pc p == .gone
+          | none => true
+        if ps.strict && !quiet then .error s!"exit-not-quiet: the communicator of helper {a} is destroyed while its parent's thread is running (parent pc {match s.parent v with | some p => showPc (s.pc p) | none => "-"})" else
+        let ps1 ← doStep ps (.exit v) s!"communicator {a} destroyed (pc {showPc (s.pc v)})"
+        .ok { ps1 with slots := ps1.slots.filter (fun p => p.1 != a), retired := a :: ps1.retired }
   | "WAIT_RET" =>
       let v ← needSlot ps a
       doStep ps (.waitRet v) s!"WAIT_RET {a} (pc {showPc (s.pc v)}, flag {s.flag v})"
